@@ -4,6 +4,8 @@ The matching-cost step is driven through the machine (pipeline = {matching_cost}
 cell by cell with a naive per-pixel reference (pbt/ref/matching.py): exact for sad/ssd/census, 1e-5 for zncc."""
 from __future__ import annotations
 
+import math
+
 import numpy as np
 from hypothesis import strategies as st
 
@@ -65,7 +67,7 @@ def cases(draw):
     grid = draw(st.integers(0, 2)) == 0 and not oversize
     p = {"meth": meth, "w": w, "sub": sub, "H": H, "W": W, "left": left, "right": right, "nb": nb,
          "band": draw(st.integers(0, nb - 1)), "right_perm": draw(st.permutations(list(range(nb)))),
-         "valid": conv[0], "nodata": conv[1],
+         "valid": conv[0], "nodata": conv[1], "scale": draw(st.sampled_from([1, 1, 1, 2, 4])),
          # each image dataset announces its own mask convention
          "conv_right": draw(st.sampled_from([None, None, None, [1, 0], [2, 1], [0, 255]])),
          "mask_left": draw(gen.sparse_mask(H, W)), "mask_right": draw(gen.sparse_mask(H, W)),
@@ -122,16 +124,24 @@ def _judge_side(ctx, p, side, cv, img_a, img_b, msk_a, msk_b, dmin, dmax, H, W):
     cmax = cv.attrs.get("cmax")
     if both.any():
         m = float(np.nanmax(np.abs(got)))
-        if cmax is None or m > float(cmax) + 1e-5:
+        # (the reported value is an integer: a fractional maximum may exceed it by less than 1)
+        if cmax is None or m >= float(cmax) + 1.0:
             ctx.violation("C02/cost-exceeds-cmax", f"max |cost| {m} cmax {cmax} {tag}")
+    if p["meth"] in ("sad", "ssd") and cmax is not None:
+        # the maximal cost of the measure: largest radiometric difference between the two bands, (squared,) times the window
+        md = max(abs(float(img_a.max()) - float(img_b.min())), abs(float(img_b.max()) - float(img_a.min())))
+        theory = (md if p["meth"] == "sad" else md * md) * p["w"] ** 2
+        if not (math.floor(theory) - 1e-6 <= float(cmax) <= math.ceil(theory) + 1e-6):
+            ctx.violation("C02/reported-maximal-cost-wrong", f"cmax {cmax}, the measure's maximum is {theory} {tag}")
     ctx.judged += int(got.size)
     return got
 
 
 def body(ctx: Ctx, p: dict) -> None:
     H, W, nb = p["H"], p["W"], p["nb"]
-    L = np.array(p["left"], dtype=np.float32)
-    R = np.array(p["right"], dtype=np.float32)
+    # radiometry: whole numbers, or halves / quarters (exact in float32; reflectances and resampled images are not integers)
+    L = np.array(p["left"], dtype=np.float32) / np.float32(p.get("scale", 1))
+    R = np.array(p["right"], dtype=np.float32) / np.float32(p.get("scale", 1))
     ML = gen._mask(p["mask_left"], H, W, p["valid"], p["nodata"])
     vr, nr = p.get("conv_right") or (p["valid"], p["nodata"])
     MR = gen._mask(p["mask_right"], H, W, vr, nr)
